@@ -84,6 +84,10 @@ CHECKS = {
   "Go race detector over a repeated concurrent workload in fresh processes + per-call equality with sequential results; isolation probe battery after hostile histories",
   "The worker is built with -race. Isolation: seeded histories of hostile programs (overwriting every systemdict key, all StandardEncoding slots, every CIDInit procedure and errordict handler, polluting FontDirectory, resource categories and internaldict, leaving dictionary stacks unbalanced, failing half-way by type error, budget, syntax error or read fault; fed through Execute, ReadCMap and type1.Read) are followed by a fixed battery of about 80 probe calls whose digests must equal those of the pristine process. Races: fresh child processes each start 16 goroutines from a barrier; each runs 30-60 seeded calls mixing interpreter runs in own instances, ReadCMap, type1.Read on four containers, afm.Read, all writers on shared font/metrics values and the name functions, the first call of every goroutine aimed at one of the three lazily built name tables. WARNING: DATA RACE blocks are counted in the detector's log files (exit codes are not trusted) and deduplicated by the pair of innermost library frames; each concurrent result must equal the sequential result of the same call.",
   "The race detector reports races on the executions it sees; linearizability checking is not applicable (the only shared object is a write-once table of pure functions, so per-call equality with the sequential result is the whole check)."),
+ "C01": ("exploration", "DESIGN.md 11/C01",
+  "Go runtime checks (bounds, nil, makeslice, stack limit, out of memory) observed from a supervisor: recovered panics per case, worker deaths attributed through write-ahead case logs, no-progress monitor fed by the step hook and reader events",
+  "Hostile inputs are generated below the encryption layers and wrapped into valid containers: every operator found at run time in systemdict and the CIDInit procedure set applied to every operand tuple of length 0-3 from a hostile pool; runaway, self-referential and deeply nested programs through Execute, ReadCMap and type1.Read; fonts in all containers with random charstrings over the whole opcode table, every callothersubr (index,count), self/mutual/chained subroutine calls, seac with wild codes, lenIV from min int to max int, charstrings shorter than lenIV, every extracted dictionary key replaced by hostile values or removed, zero/two fonts; hostile programs and dictionary-stack games inside eexec sections; PFB streams with hostile types and length fields; AFM grammar fuzz; CMap files with hostile counts, order and operand types; byte-level mutations of valid files of all five kinds. The only demand is that the call returns: a recovered panic, a worker death (stack exhaustion, a single absurd allocation) or a confirmed hang is a violation.",
+  "Workers run with a 64 MiB goroutine-stack limit and a 16 GiB address-space limit so that runaway recursion and absurd requests die quickly. A hang is only reported when no interpreter step and no reader call was seen for the whole window in the shard and again when the case is re-run alone; otherwise the case is inconclusive."),
 }
 
 NOT_CLAIMED = {}
